@@ -191,6 +191,16 @@ fn curve_pairs(cat: &mut Cat, curves: &[(String, Cub, f64)]) {
                 for (t1, t2) in curve_intersects_curve_clip(&lib_curve(&a), &lib_curve(&b), acc) { f1("t1", t1)?; f1("t2", t2)?; }
                 Ok(())
             });
+            // identical operands once more with the ABSOLUTE accuracy 0.01 at every scale (at 1e6 the accuracy test cannot end the subdivision,
+            // only the section-size floor does), and with a bound on the size of the answer: two cubics meet in at most 9 points
+            if na == nb {
+                run(cat, "curve_intersects_curve_clip_identical_acc0.01", na, &format!("curve1=curve2={} accuracy=0.01", fmt_cub(&a)), move || {
+                    let hits = curve_intersects_curve_clip(&lib_curve(&a), &lib_curve(&b), 0.01);
+                    for (t1, t2) in hits.iter() { f1("t1", *t1)?; f1("t2", *t2)?; }
+                    if hits.len() > 1000 { return Err(format!("{} matches for two cubic curves (counted as unbounded work)", hits.len())); }
+                    Ok(())
+                });
+            }
         }
     }
 }
